@@ -1,4 +1,4 @@
-#!/usr/bin/env python3
+#!/venv/bin/python
 """tools/blindspots.py — lines of the anchored functions that the last run of each check never executed
 (read from evidence/*.json), with their source text.  A line listed here is a path the monitors of that
 property have not observed: either an error path outside the property's domain or an input class to add."""
